@@ -3,9 +3,9 @@
    vocabulary: no_aromatic, non8, env_of, mol_union, formula_count, octet_h, ...).  The element tables are regenerated
    from chython/periodictable/group*.py on every run (Gen.Elements). *)
 From Coq Require Import ZArith List String Bool Permutation.
-From Model Require Import PyBase Graph PeriodicTable Valence.
+From Model Require Import PyBase Graph PeriodicTable Valence ValenceArom.
 From Gen Require Import Elements.
-From Proofs Require Import ValenceProofs.
+From Proofs Require Import ValenceProofs ValenceExt.
 Import ListNotations.
 Open Scope string_scope.
 Open Scope Z_scope.
@@ -206,3 +206,95 @@ Theorem C04_organic_octet_counts :
   map (fun k => count_class k octet_classes) [0; 1; 2; 3; 4] = [3480; 4587; 1321; 868412; 0].
 Proof. exact organic_octet_counts. Qed.
 Print Assumptions C04_organic_octet_counts.
+
+(* ==== extension round ==== *)
+(* ---- the delocalised (aromatic) branch of calc_implicit, exactly as coded (Model.ValenceArom.arom_h is the closed form;
+        arom_bonds = number of aromatic bonds, sigma_sum = sum of the localised orders, order-8 bonds ignored) ---- *)
+Theorem C04_calc_env_aromatic : forall t num chg rad e, num <> 1 -> has_arom e = true ->
+  calc_env t num chg rad e = Ok (arom_h num chg rad e).
+Proof. exact calc_env_aromatic. Qed.
+Print Assumptions C04_calc_env_aromatic.
+
+Theorem C04_aromatic_h1_iff : forall t num chg rad e, num <> 1 -> has_arom e = true ->
+  (calc_env t num chg rad e = Ok (Some 1) <->
+   num = 6 /\ chg = 0 /\ rad = false /\ arom_bonds e = 2 /\ sigma_sum e = 0).
+Proof. exact aromatic_h1_iff. Qed.
+Print Assumptions C04_aromatic_h1_iff.
+
+Theorem C04_aromatic_h0_iff : forall t num chg rad e, num <> 1 -> has_arom e = true ->
+  (calc_env t num chg rad e = Ok (Some 0) <->
+   num = 6 /\ chg = 0 /\ rad = false /\
+   ((arom_bonds e = 2 /\ sigma_sum e = 1) \/ (arom_bonds e = 3 /\ sigma_sum e = 0))).
+Proof. exact aromatic_h0_iff. Qed.
+Print Assumptions C04_aromatic_h0_iff.
+
+Theorem C04_aromatic_none_iff : forall t num chg rad e, num <> 1 -> has_arom e = true ->
+  (calc_env t num chg rad e = Ok None <->
+   ~ (num = 6 /\ chg = 0 /\ rad = false /\
+      ((arom_bonds e = 2 /\ (sigma_sum e = 0 \/ sigma_sum e = 1)) \/ (arom_bonds e = 3 /\ sigma_sum e = 0)))).
+Proof. exact aromatic_none_iff. Qed.
+Print Assumptions C04_aromatic_none_iff.
+
+(* "no localised bond" read on real bonds (orders >= 1): every bond is aromatic or an order-8 bond *)
+Theorem C04_sigma_sum_zero_iff : forall e, (forall x, In x e -> 1 <= fst x) ->
+  (sigma_sum e = 0 <-> forall x, In x e -> fst x = 4 \/ fst x = 8).
+Proof. exact sigma_sum_zero_iff. Qed.
+Print Assumptions C04_sigma_sum_zero_iff.
+
+Theorem C04_aromatic_three_connected : forall t num chg rad e h, num <> 1 -> has_arom e = true ->
+  calc_env t num chg rad e = Ok (Some h) -> (h = 0 \/ h = 1) /\ arom_bonds e + sigma_sum e + h = 3.
+Proof. exact aromatic_three_connected. Qed.
+Print Assumptions C04_aromatic_three_connected.
+
+(* the valence table is never consulted for a delocalised atom; check_implicit refuses every count *)
+Theorem C04_aromatic_table_free : forall t t' num chg rad e, has_arom e = true ->
+  calc_env t num chg rad e = calc_env t' num chg rad e.
+Proof. exact calc_env_aromatic_table_free. Qed.
+Print Assumptions C04_aromatic_table_free.
+
+Theorem C04_check_env_aromatic : forall t num chg rad e h, num <> 1 -> has_arom e = true ->
+  check_env t num chg rad e h = Ok false.
+Proof. exact check_env_aromatic. Qed.
+Print Assumptions C04_check_env_aromatic.
+
+(* neighbour-order independence in the aromatic branch: C04_calc_env_perm / C04_calc_env_multiset above hold for EVERY
+   environment, aromatic ones included; the closed form itself depends on the multiset of non-8 bonds only *)
+Theorem C04_arom_h_multiset : forall num chg rad e e', Permutation (filter non8 e) (filter non8 e') ->
+  has_arom e = has_arom e' /\ (has_arom e = true -> arom_h num chg rad e = arom_h num chg rad e').
+Proof. exact arom_h_multiset. Qed.
+Print Assumptions C04_arom_h_multiset.
+
+(* ... provided every neighbour exists: on a corrupted bond dictionary the result depends on the order *)
+Theorem C04_dangling_order_dependent :
+  let vr := valence_rules el_N 0 false in
+  Permutation [(1, None); (4, Some 6)] [(4, Some 6); (1, None)] /\
+  calc_atom vr 7 0 false [(1, None); (4, Some 6)] = Err KeyError /\
+  calc_atom vr 7 0 false [(4, Some 6); (1, None)] = Ok None.
+Proof. exact dangling_order_dependent. Qed.
+Print Assumptions C04_dangling_order_dependent.
+
+(* the shortcuts agree with carbon's valence table on the Kekule spelling of the environment (first aromatic bond ->
+   double, the others -> single), for the count and for the valence error alike *)
+Theorem C04_aromatic_matches_kekule : forall e, (forall x, In x e -> 1 <= fst x) -> 2 <= arom_bonds e ->
+  calc_env (compiled_rules el_C) 6 0 false e = calc_env (compiled_rules el_C) 6 0 false (kekule_env true e).
+Proof. exact aromatic_matches_kekule. Qed.
+Print Assumptions C04_aromatic_matches_kekule.
+
+Theorem C04_calc_implicit_aromatic : forall g n a e,
+  atom_of g n = Some a -> env_of g n = Some e -> a_num a <> 1 -> has_arom e = true ->
+  calc_implicit g n = Ok (arom_h (a_num a) (a_chg a) (a_rad a) e) /\ forall h, check_implicit g n h = Ok false.
+Proof. exact calc_implicit_aromatic. Qed.
+Print Assumptions C04_calc_implicit_aromatic.
+
+Theorem C04_aromatic_examples :
+  calc_env (compiled_rules el_C) 6 0 false [(4, 6); (4, 6)] = Ok (Some 1) /\
+  calc_env (compiled_rules el_C) 6 0 false [(4, 6); (1, 6); (4, 7)] = Ok (Some 0) /\
+  calc_env (compiled_rules el_C) 6 0 false [(8, 26); (4, 7); (1, 6); (4, 6)] = Ok (Some 0) /\
+  calc_env (compiled_rules el_C) 6 0 false [(4, 6); (4, 6); (4, 6)] = Ok (Some 0) /\
+  calc_env (compiled_rules el_C) 6 0 false [(4, 6); (2, 8); (4, 6)] = Ok None /\
+  calc_env (compiled_rules el_C) 6 0 false (kekule_env true [(4, 6); (2, 8); (4, 6)]) = Ok None /\
+  calc_env (compiled_rules el_N) 7 0 false [(4, 6); (4, 6)] = Ok None /\
+  kekule_env true [(4, 6); (1, 6); (4, 7)] = [(2, 6); (1, 6); (1, 7)] /\
+  Z.of_nat (List.length arom_space) = 4791.
+Proof. exact aromatic_examples. Qed.
+Print Assumptions C04_aromatic_examples.
